@@ -67,9 +67,10 @@ pub open spec fn eid_cmp(a: EntityId, b: EntityId) -> Ordering {
 pub open spec fn eid_is_min(e: EntityId) -> bool { e.entity_key@ =~= seq![0u8, 0u8, 0u8] && e.entity_kind.0 == 0 }
 pub open spec fn eid_is_max(e: EntityId) -> bool { e.entity_key@ =~= seq![0xFFu8, 0xFFu8, 0xFFu8] && e.entity_kind.0 == 0xFF }
 
+pub open spec fn eid_eq(a: EntityId, b: EntityId) -> bool { a.entity_key@ =~= b.entity_key@ && a.entity_kind.0 == b.entity_kind.0 }
 impl PartialEqSpecImpl for EntityId {
     open spec fn obeys_eq_spec() -> bool { true }
-    open spec fn eq_spec(&self, other: &Self) -> bool { self.entity_key@ =~= other.entity_key@ && self.entity_kind.0 == other.entity_kind.0 }
+    open spec fn eq_spec(&self, other: &Self) -> bool { eid_eq(*self, *other) }
 }
 impl PartialEq for EntityId { #[verifier::external_body] fn eq(&self, other: &Self) -> (r: bool) { self.entity_key == other.entity_key && self.entity_kind.0 == other.entity_kind.0 } }
 impl Eq for EntityId {}
